@@ -1121,14 +1121,22 @@ class Terms:
         sites = self.rd.defs_of(local, path, bb, idx)
         terms = set()
         updates = set()
+        whole_sites = []
+        sub_paths = set()
         for s in sites:
             dpath = self.rd.sites[s][1]
             kind = self.rd.sites[s][2]
             if not _is_prefix(dpath, path):
-                # def (or in-place mutation) of a sub-part of the queried place: functional update of the base value
-                updates.add((dpath[len(path):], self._site_term(s, local, dpath, depth + 1)))
+                # def (or in-place mutation) of a sub-part of the queried place: functional update of the base value.
+                # The member's value at this point is whatever reaches *for that member* (a conditional assignment
+                # `if c { x.f = v }` makes it a selection on c, not an unconditional update)
+                sub_paths.add(dpath)
             else:
+                whole_sites.append(s)
                 terms.add(self._site_term(s, local, path, depth + 1))
+        for dp in sorted(sub_paths, key=str):
+            updates.add((dp[len(path):], self.place(local, dp, bb, idx, depth + 1)))
+        sites_for_gamma = whole_sites
         if not sites:
             r = ("undef", local, path)
         elif len(terms) == 1:
@@ -1137,8 +1145,8 @@ class Terms:
             r = ("undef", local, path)
         else:
             r = None
-            if not updates and len(sites) <= 8:
-                r = self._gamma(local, path, bb, idx, sites, depth)
+            if len(sites_for_gamma) <= 8:
+                r = self._gamma(local, path, bb, idx, sites_for_gamma, depth)
             if r is None:
                 r = ("phi", frozenset(terms))
         if updates:
